@@ -632,7 +632,7 @@ def consumeStep {κ : Type} (env : Env κ) (inp : Bytes) (sd : StateDef) (m : M 
     let ch := inp[m.c.nextPos]?
     dispatch env inp ch sd.arms { m with c := { m.c with nextPos := m.c.nextPos + 1 } }
 
-theorem stateFn_split {κ : Type} (env : Env κ) (m : M κ) :
+theorem stateFn_preConsume {κ : Type} (env : Env κ) (m : M κ) :
     stateFn env inp m =
       (match env.tbl.state? m.c.state with
        | none => (m, some (.err (.panic "unknown state")))
@@ -726,7 +726,7 @@ theorem stateFn_rel (P : PLabels) (hok : PhaseOk tbl P = true) (ms ml : M L) (h 
     StepRel cfg P (stateFn (envS tbl cfg) inp ms) (stateFn (envL tbl cfg) inp ml) := by
   unfold RelAt at h
   obtain ⟨_, _, f3, _⟩ := Rel_fields h
-  rw [stateFn_split, stateFn_split]
+  rw [stateFn_preConsume, stateFn_preConsume]
   show StepRel cfg P (match tbl.state? ms.c.state with | none => _ | some sd => _)
     (match tbl.state? ml.c.state with | none => _ | some sd => _)
   rw [← f3]
